@@ -39,8 +39,11 @@ def one_average(rng_seed, trial_kind, walker_type, norb, ne, nchol, dt, spin_dep
     walkers = jnp.array([Wa] * n) if restricted else [jnp.array([Wa] * n), jnp.array([Wb] * n)]
     ov = trial.calc_overlap(walkers, wd)
     eshift = float(rng.randint(-8, 8) / 8.0)
-    pd = {"walkers": walkers, "weights": jnp.ones(n), "overlaps": ov, "e_estimate": jnp.array(0.0),
-          "pop_control_ene_shift": jnp.array(eshift)}
+    # the population is prepared by the propagator's public initialiser from the SUPPLIED walkers (whatever it stores as the old
+    # overlap is what the step divides by); only the energy shift is then set to the value under test
+    pd = dict(prop.init_prop_data(trial, wd, hd, init_walkers=walkers))
+    pd["e_estimate"] = jnp.array(0.0)
+    pd["pop_control_ene_shift"] = jnp.array(eshift)
     fields = jnp.array(nodes)
     out = prop.propagate(trial, hd, {k: v for k, v in pd.items()}, fields, wd)
     # complex importance function, from public quantities (definition in the property statement)
